@@ -54,6 +54,9 @@ impl<L: Language> Expansion<L> {
     };
     let stop_by = StopBy::try_from(inner.stop_by, env)?;
     let matches = env.deserialize_rule(inner.rule)?;
+    // a `matches` in an expansion must name an existing rule, like anywhere else
+    matches.verify_util()?;
+    stop_by.verify_util()?;
     Ok(Some(Self { matches, stop_by }))
   }
 }
